@@ -24,6 +24,7 @@ mod copyw;
 mod amap;
 mod own;
 mod ctor;
+mod sys;
 
 use std::io::{BufRead, BufWriter, Write};
 
@@ -34,7 +35,14 @@ fn main() {
         std::process::exit(2);
     }
     // panics in the code under test are data; keep the default hook quiet
-    std::panic::set_hook(Box::new(|_| {}));
+    // - except the harness' own complaints (bad program line, failed set-up), which are tool errors (exit 2)
+    std::panic::set_hook(Box::new(|info| {
+        let p = info.payload();
+        let msg = p.downcast_ref::<&str>().map(|s| s.to_string()).or_else(|| p.downcast_ref::<String>().cloned()).unwrap_or_default();
+        if msg.starts_with("harness:") {
+            eprintln!("{msg}");
+        }
+    }));
     let module = args[1].as_str();
     let inp = std::io::BufReader::new(std::fs::File::open(&args[2]).expect("open program"));
     let mut out = BufWriter::new(std::fs::File::create(&args[3]).expect("create out"));
@@ -50,19 +58,53 @@ fn main() {
         "copyw" => Box::new(copyw::CopyExec::default()),
         "amap" => Box::new(amap::AmapExec::default()),
         "own" => Box::new(own::OwnExec::default()),
+        "sys" => Box::new(sys::SysExec::default()),
         "ctor" => Box::new(ctor::CtorExec::default()),
         _ => {
             eprintln!("unknown module {module}");
             std::process::exit(2);
         }
     };
+    // watchdog: an operation of the code under test that does not return within the limit is a hang - reported to
+    // the orchestrator by exit status 103 (every completed event has been flushed, so it knows which line it was)
+    let tick = std::sync::Arc::new(std::sync::atomic::AtomicU64::new(0));
+    {
+        let tick = tick.clone();
+        let limit: u64 = std::env::var("VMH_OP_LIMIT_S").ok().and_then(|v| v.parse().ok()).unwrap_or(30);
+        std::thread::spawn(move || {
+            let mut last = u64::MAX;
+            let mut since = std::time::Instant::now();
+            loop {
+                std::thread::sleep(std::time::Duration::from_millis(200));
+                let now = tick.load(std::sync::atomic::Ordering::SeqCst);
+                if now != last {
+                    last = now;
+                    since = std::time::Instant::now();
+                } else if now % 2 == 1 && since.elapsed().as_secs() >= limit {
+                    eprintln!("watchdog: operation number {} did not return within {} s", now / 2 + 1, limit);
+                    std::process::exit(103);
+                }
+            }
+        });
+    }
     for line in inp.lines() {
         let line = line.expect("read line");
         if line.trim().is_empty() {
             continue;
         }
         let v: serde_json::Value = serde_json::from_str(&line).expect("parse program line");
-        let res = exec.step(&v);
+        tick.fetch_add(1, std::sync::atomic::Ordering::SeqCst); // odd: inside an operation
+        let res = match std::panic::catch_unwind(std::panic::AssertUnwindSafe(|| exec.step(&v))) {
+            Ok(r) => r,
+            Err(e) => {
+                let msg = e.downcast_ref::<&str>().map(|s| s.to_string()).or_else(|| e.downcast_ref::<String>().cloned()).unwrap_or_default();
+                if msg.starts_with("harness:") {
+                    std::process::exit(2);
+                }
+                // a panic of the code under test outside a guarded call: the orchestrator records it as a crash of this line
+                std::process::exit(101);
+            }
+        };
         match res {
             serde_json::Value::Array(items) => {
                 for it in items {
@@ -73,6 +115,7 @@ fn main() {
         }
         // flushed per line: if the code under test takes the process down, the orchestrator must know where
         out.flush().unwrap();
+        tick.fetch_add(1, std::sync::atomic::Ordering::SeqCst); // even: between operations
     }
     out.flush().unwrap();
 }
